@@ -122,6 +122,40 @@ def fq2_dec(d, bits=384):
 
 
 # ---------------- C02 ----------------
+def _masks(ctx, m, prog, fname, p, label):
+    """top-byte masks and one-subtraction sufficiency of the samplers / hash reductions of one field"""
+    bl = p.bit_length()
+    mask = (1 << (bl % 8)) - 1 if bl % 8 else 0xff
+    nm = 0
+    for meth in ('random', 'hash_reduce', 'read_big_endian'):
+        fs = prog.fn_by_qn(fname + '::' + meth)
+        if not fs:
+            continue
+        for nnode in walk(fs[0]['body']):
+            if nnode.get('k') == 'assign' and nnode.get('op') == '&=' and 'cv' in (nnode.get('rhs') or {}):
+                lt = (nnode['lhs'].get('t') or {})
+                if lt.get('size') != 1:
+                    continue
+                nm += 1
+                got = int(nnode['rhs']['cv']) & 0xff
+                m.ob('R-CONST', got == mask, 'mask|%s|%s' % (label, meth),
+                     '%s::%s masks the top byte with %#x, expected %#x = 2^(bitlen(%s) mod 8)-1: the masked value must stay below 2%s for one '
+                     'conditional subtraction to reduce it' % (fname, meth, got, mask, label, label),
+                     loc_str(nnode))
+    ctx.require(nm >= 2, 'no top-byte mask found in %s::random/hash_reduce' % fname)
+    m.ob('R-CONST', (1 << bl) <= 2 * p, 'onesub|' + label, '2^bitlen(%s) > 2%s: one conditional subtraction does not suffice' % (label, label))
+    return nm + 1
+
+
+def rule_sampling_masks(ctx, cfg, prog):
+    """(C10) the masks alone: hashed / sampled values are cut to the bit length of the modulus before the single conditional subtraction"""
+    m = ConstModel(ctx, cfg, prog)
+    n = 0
+    for fname, p, label in ((NS + 'Fq', bls.Q, 'q'), (NS + 'Fr', bls.R_ORDER, 'r')):
+        n += _masks(ctx, m, prog, fname, p, label)
+    return n
+
+
 def rule_field_constants(ctx, cfg, prog):
     m = ConstModel(ctx, cfg, prog)
     n = 0
@@ -148,27 +182,7 @@ def rule_field_constants(ctx, cfg, prog):
         m.ob('R-CONST', one == pow(2, bits, p), 'one|' + label, '%s::one is not R (Montgomery 1)' % fname, loc_str(m.g(fname + '::one')))
         m.ob('R-CONST', zero == 0, 'zero|' + label, '%s::zero is not 0' % fname, loc_str(m.g(fname + '::zero')))
         n += 6
-        # top-byte masks and one-subtraction sufficiency
-        bl = p.bit_length()
-        mask = (1 << (bl % 8)) - 1 if bl % 8 else 0xff
-        nm = 0
-        for meth in ('random', 'hash_reduce', 'read_big_endian'):
-            fs = prog.fn_by_qn(fname + '::' + meth)
-            if not fs:
-                continue
-            for nnode in walk(fs[0]['body']):
-                if nnode.get('k') == 'assign' and nnode.get('op') == '&=' and 'cv' in (nnode.get('rhs') or {}):
-                    lt = (nnode['lhs'].get('t') or {})
-                    if lt.get('size') != 1:
-                        continue
-                    nm += 1
-                    got = int(nnode['rhs']['cv']) & 0xff
-                    m.ob('R-CONST', got == mask, 'mask|%s|%s' % (label, meth),
-                         '%s::%s masks the top byte with %#x, expected %#x = 2^(bitlen(%s) mod 8)-1' % (fname, meth, got, mask, label),
-                         loc_str(nnode))
-        ctx.require(nm >= 2, 'no top-byte mask found in %s::random/hash_reduce' % fname)
-        m.ob('R-CONST', (1 << bl) <= 2 * p, 'onesub|' + label, '2^bitlen(%s) > 2%s: one conditional subtraction does not suffice' % (label, label))
-        n += nm + 1
+        n += _masks(ctx, m, prog, fname, p, label)
     # Fq::negative_one
     neg1 = as_int(m.val(NS + 'Fq::negative_one'))
     m.ob('R-CONST', neg1 == (bls.Q - pow(2, 384, bls.Q)) % bls.Q, 'negone|q', 'Fq::negative_one != q - R', loc_str(m.g(NS + 'Fq::negative_one')))
